@@ -172,9 +172,10 @@ class Ctx:
             return  # evaluating a specification expression never creates proof obligations
         if isinstance(goal, bool):
             goal = z3.BoolVal(goal)
-        self.obligations.append(
-            Obligation(name, list(self.pc), goal, list(self.axioms), self.func, list(self.taken), info, kind)
-        )
+        for sub_name, sub_goal in split_goal(name, goal):
+            self.obligations.append(
+                Obligation(sub_name, list(self.pc), sub_goal, list(self.axioms), self.func, list(self.taken), info, kind)
+            )
 
     # ---- decisions
     def decide(self, cond) -> bool:
@@ -185,28 +186,28 @@ class Ctx:
             return True
         if z3.is_false(cond):
             return False
+        # forced decisions (only one side feasible) are not recorded as decisions: they are recomputed identically
+        # on every re-execution and do not count as branching
+        t_ok = self.engine.feasible(self, cond)
+        f_ok = self.engine.feasible(self, z3.Not(cond))
+        if t_ok and not f_ok:
+            self.pc.append(cond)
+            return True
+        if f_ok and not t_ok:
+            self.pc.append(z3.Not(cond))
+            return False
+        if not t_ok and not f_ok:
+            raise PathEnd()
         idx = len(self.taken)
         if idx < len(self.prefix):
             d = self.prefix[idx]
             self.taken.append(d)
             self.pc.append(cond if d else z3.Not(cond))
             return bool(d)
-        t_ok = self.engine.feasible(self, cond)
-        f_ok = self.engine.feasible(self, z3.Not(cond))
-        if t_ok and f_ok:
-            self.pending.append(self.taken + [0])
-            self.taken.append(1)
-            self.pc.append(cond)
-            return True
-        if t_ok:
-            self.taken.append(1)
-            self.pc.append(cond)
-            return True
-        if f_ok:
-            self.taken.append(0)
-            self.pc.append(z3.Not(cond))
-            return False
-        raise PathEnd()
+        self.pending.append(self.taken + [0])
+        self.taken.append(1)
+        self.pc.append(cond)
+        return True
 
     def choose(self, n: int) -> int:
         """Unconditional n-way fork."""
@@ -255,6 +256,7 @@ class Engine:
         self.lib = libmodel.Lib(self)
         self.stats = {"feasibility_checks": 0}
         self.used_prelude_ids = set()
+        self.unchecked_asserts = set()
 
     # ------------------------------------------------------------------ helpers
     def class_by_name(self, name: str) -> ClassInfo:
@@ -298,7 +300,14 @@ class Engine:
                     if new:
                         syms |= new
                     changed = True
-        out = [a for a, c in zip(self.prelude, chosen) if c]
+        set_theory = bool(syms & SET_THEORY_SYMBOLS)
+        out = []
+        for (a, c), (nm, _, _) in zip(zip(self.prelude, chosen), self.prelude_named):
+            if not c:
+                continue
+            if nm == "pmod-builtin" and set_theory:
+                continue
+            out.append(a)
         for a in out:
             self.used_prelude_ids.add(a.get_id())
         return out
@@ -669,9 +678,12 @@ class Engine:
             worklist.extend(ctx.pending)
 
     def make_param(self, ctx: Ctx, finfo: FuncInfo, contract: Contract, name: str, annotation, inst):
-        if inst is not None and name in inst:
-            return inst[name]
         kind = contract.params.get(name)
+        if inst is not None and name in inst:
+            if isinstance(inst[name], V.Kind):
+                kind = inst[name]
+            else:
+                return inst[name]
         if kind is None:
             kind = self.kind_from_annotation(finfo, annotation)
         if kind is None:
@@ -787,6 +799,9 @@ class Engine:
                 res.raising_paths += 1
             self._check_raise(ctx, contract, ns, pr.exc)
             return
+        if isinstance(result, OptV) and not isinstance(result.is_none, bool):
+            if not self.feasible(ctx, result.is_none):
+                result = result.val  # the path condition excludes None
         ns.__dict__["result"] = result
         if res is not None:
             res.normal_paths += 1
@@ -966,7 +981,16 @@ class Engine:
             return
         if ctx.spec_mode:
             return  # an assert met while a specification reads a property: neither obligation nor assumption
-        c = self.truth(ctx, self.eval(ctx, st.test, env))
+        ctx.opaque_ok += 1
+        try:
+            tv = self.eval(ctx, st.test, env)
+        finally:
+            ctx.opaque_ok -= 1
+        if isinstance(tv, V.Opaque):
+            ctx.notes.append("unchecked assertion (depends on an unmodelled value): %s" % safe_unparse(st.test))
+            self.unchecked_asserts.add("%s: %s" % (env.finfo.qualname if env.finfo else "?", safe_unparse(st.test)))
+            return
+        c = self.truth(ctx, tv)
         label = "L%d" % n
         ctx.oblige("%s/assert#%s" % (short(ctx.func), self._assert_label(st, env, n, ctx)), lift_bool(c), kind="assert",
                    info={"source": safe_unparse(st.test)})
@@ -1440,6 +1464,10 @@ class Engine:
         for a in e.args:
             if isinstance(a, ast.Starred):
                 sv = self.eval(ctx, a.value, env)
+                if isinstance(sv, V.MappedIter):
+                    from .loops import list_of_mapped
+
+                    sv = list_of_mapped(self, ctx, sv)
                 if isinstance(sv, (SymSeq,)):
                     args.append(V.StarArgs(sv))
                 else:
@@ -1630,6 +1658,11 @@ class Engine:
     def apply_contract(self, ctx: Ctx, finfo: FuncInfo, contract: Contract, args, kwargs):
         denv = Env(finfo.module, None, None)
         bound = self.bind_args(ctx, finfo, args, kwargs, denv)
+        for pname, pkind in contract.params.items():
+            if isinstance(pkind, V.SeqOf) and isinstance(bound.get(pname), V.MappedIter):
+                from .loops import list_of_mapped
+
+                bound[pname] = list_of_mapped(self, ctx, bound[pname])
         params = finfo.params
         nsd = {}
         for k, v in bound.items():
@@ -1746,6 +1779,7 @@ class Engine:
         return v
 
 
+SET_THEORY_SYMBOLS = {"modset", "padset", "sumset", "kfold", "rangefold", "nsum", "unions"}
 _SYM_CACHE: Dict[int, Any] = {}
 _SYM_KEEP: List[Any] = []
 
@@ -1776,6 +1810,37 @@ def symbols_of(t) -> frozenset:
     _SYM_CACHE[key] = r
     _SYM_KEEP.append(t)  # keep the term alive so that its id is not reused
     return r
+
+
+_split_counter = [0]
+
+
+def split_goal(name, goal):
+    """Top-level conjunctions are split; an equality between sets becomes two inclusion goals over a fresh element
+       (the solver proves each inclusion far more reliably than the extensional equality)."""
+    if z3.is_and(goal) and goal.num_args() > 1:
+        out = []
+        for k, c in enumerate(goal.children()):
+            out.extend(split_goal("%s.%d" % (name, k) if goal.num_args() > 1 else name, c))
+        return out
+    if z3.is_eq(goal) and z3.is_array(goal.arg(0)) and goal.arg(0).sort().range() == z3.BoolSort():
+        a, b = goal.arg(0), goal.arg(1)
+        if a.eq(b):
+            return [(name, z3.BoolVal(True))]
+        _split_counter[0] += 1
+        y = z3.Const("elem!%d" % _split_counter[0], a.sort().domain())
+        return [(name + "/subset", z3.Implies(z3.Select(a, y), z3.Select(b, y))),
+                (name + "/superset", z3.Implies(z3.Select(b, y), z3.Select(a, y)))]
+    if z3.is_eq(goal) and z3.is_int(goal.arg(0)) and (has_uf(goal.arg(0)) and has_uf(goal.arg(1))):
+        a, b = goal.arg(0), goal.arg(1)
+        if a.eq(b):
+            return [(name, z3.BoolVal(True))]
+        return [(name + "/le", a <= b), (name + "/ge", a >= b)]
+    return [(name, goal)]
+
+
+def has_uf(t) -> bool:
+    return bool(symbols_of(t))
 
 
 _Q_CACHE: Dict[int, bool] = {}
